@@ -1,6 +1,7 @@
 import BSModel.Proofs.TokenizerTags
 import BSModel.Proofs.TokenizerRoundAttrs
 import BSModel.Proofs.TokenizerErr
+import BSModel.Proofs.TokenizerExact
 /-! # TK — CPython's `html.parser` tokenizer as bs4 drives it (`feed(text); close()`, `convert_charrefs=False`)
 
 Theorems about the executable model `BS.Tokenizer.run` (`Model/Tokenizer.lean`, a code mirror of `html/parser.py` and
@@ -15,7 +16,11 @@ parameters (`html.unescape`, `str.lower`):
 * data callbacks carry exactly the text of their span;
 * the fuel of the model's loops never runs out (every continuing turn consumes at least one character);
 * the parser raises only inside `parse_marked_section` (texts without `<![` are never rejected);
-* round trips of `parse_starttag` / `parse_endtag` / `parse_comment` on a small writer grammar.
+* round trips of `parse_starttag` / `parse_endtag` on a small writer grammar;
+* EXACT round trips of the delimiter-terminated constructs (comments, processing instructions, `<!DOCTYPE …>`, CDATA marked
+  sections, character data): a decidable predicate on the written body, the parse result when it holds, and the parse
+  result — the proper prefix up to the FIRST terminator — when it does not; based on `search_least` (`pattern.search`
+  reports the least matching offset).
 
 `Tok.skip` marks the two stretches CPython consumes without any callback (`</>`, and the `&` of an incomplete
 reference that is all that is left at `close()`). -/
@@ -210,9 +215,10 @@ example : parseEndTag P0 none (BS.ofS "</h1>x") = .ok (.et (BS.ofS "h1")) 5 none
 
 /-- **comments round-trip** (partial: bodies without `>`, or without `-`). `parse_comment` on `<!--body-->` calls
     `handle_comment(body)` and returns the index just after the `>`. Dashes in the body are harmless as long as no `>`
-    follows (`commentclose = --\s*>` needs one): `<!--a--b--->` gives `a--b-`. What is missing for the exact
-    characterisation: bodies that contain `>` and `-` but no match of `--\s*>` (with one, CPython ends the comment
-    early: `<!--a-- >b-->` gives `a`). -/
+    follows (`commentclose = --\s*>` needs one): `<!--a--b--->` gives `a--b-`. Kept for its users; both cases are
+    instances of the exact characterisation `comment_roundtrip` / `comment_roundtrip_iff` above (bodies that contain `>`
+    and `-` are fine as long as `--\s*>` matches nowhere; with a match CPython ends the comment early:
+    `<!--a-- >b-->` gives `a`, `comment_ends_at_first_close`). -/
 theorem comment_roundtrip_partial (cd : Option PStr) (body rest : PStr)
     (hb : (∀ x ∈ body, x ≠ 62) ∨ (∀ x ∈ body, x ≠ 45)) :
     parseComment cd (writeComment body ++ rest) = .ok (.cm body) (writeComment body).length cd := by
@@ -223,6 +229,151 @@ theorem comment_roundtrip_partial (cd : Option PStr) (body rest : PStr)
 example : parseComment none (BS.ofS "<!--a--b--->x") = .ok (.cm (BS.ofS "a--b-")) 12 none := by decide
 example : parseComment none (BS.ofS "<!--a-- >b-->x") = .ok (.cm (BS.ofS "a")) 9 none := by decide
 example : parseComment none (BS.ofS "<!-- a>b -->x") = .ok (.cm (BS.ofS " a>b ")) 12 none := by decide
+
+/-! ### exact round trips of the delimiter-terminated constructs -/
+
+/-- **`pattern.search` reports the LEAST matching offset.** For every anchored matcher `m` (the model's stand-in for a
+    compiled pattern's `match`) and every string: `search m s = (p, l)` exactly when `p` is an offset of `s` (its end
+    included), `m` succeeds at `p` with length `l`, and `m` fails at every smaller offset. -/
+theorem search_least (m : PStr → Option Nat) (s : PStr) (p l : Nat) :
+    search m s = some (p, l) ↔ p ≤ s.length ∧ m (s.drop p) = some l ∧ ∀ k, k < p → m (s.drop k) = none :=
+  search_eq_some_iff m s p l
+
+example : search mCommentClose (BS.ofS "a-b-- >c-->") = some (3, 4) := by decide
+example : search mCommentClose (BS.ofS "a-b-- c") = none := by decide
+
+/-- **comments round-trip, exactly.** `CommentBodyOK body` says, with the model's own matcher for `commentclose = --\s*>`,
+    that in `body-->` the pattern matches at no offset inside the body (the only match is the writer's `-->`); it is
+    decidable and independent of what follows the comment. Under it `parse_comment` on `<!--body-->rest` calls
+    `handle_comment(body)` and returns the index just after the writer's `>`. -/
+theorem comment_roundtrip (cd : Option PStr) (body rest : PStr) (hb : CommentBodyOK body) :
+    parseComment cd (writeComment body ++ rest) = .ok (.cm body) (writeComment body).length cd :=
+  parseComment_write_exact cd body rest hb
+
+/-- **… and when the predicate fails the comment ends at the first close.** If `CommentBodyOK body` is false there is a
+    FIRST offset `p` inside the body at which `--\s*>` matches `body-->` (length `l`, no match at any smaller offset);
+    `handle_comment` gets the proper prefix `body[:p]` and the parser continues right after that match — whatever
+    follows the writer's `-->`. -/
+theorem comment_ends_at_first_close (cd : Option PStr) (body rest : PStr) (hb : ¬ CommentBodyOK body) :
+    ∃ p l, p < body.length ∧ mCommentClose (body.drop p ++ [45, 45, 62]) = some l ∧
+      (∀ k, k < p → mCommentClose (body.drop k ++ [45, 45, 62]) = none) ∧
+      parseComment cd (writeComment body ++ rest) = .ok (.cm (body.take p)) (4 + p + l) cd :=
+  parseComment_write_first_close cd body rest hb
+
+/-- **the characterisation.** A written comment comes back as its body, ending at the writer's `>`, if and only if
+    `CommentBodyOK body`. -/
+theorem comment_roundtrip_iff (cd : Option PStr) (body rest : PStr) :
+    parseComment cd (writeComment body ++ rest) = .ok (.cm body) (writeComment body).length cd ↔ CommentBodyOK body := by
+  constructor
+  · intro h
+    by_cases hb : CommentBodyOK body
+    · exact hb
+    · obtain ⟨p, l, hp, _, _, he⟩ := comment_ends_at_first_close cd body rest hb
+      rw [he] at h
+      simp only [PR.ok.injEq, Tok.cm.injEq] at h
+      have := congrArg List.length h.1
+      simp at this; omega
+  · exact comment_roundtrip cd body rest
+
+/-- both sides of the predicate: `>` and `-` in the body without a close; a close with whitespace inside the body -/
+example : CommentBodyOK (BS.ofS "a>b--c- -") := by decide
+example : parseComment none (BS.ofS "<!--a>b--c- --->x") = .ok (.cm (BS.ofS "a>b--c- -")) 16 none := by decide
+example : ¬ CommentBodyOK (BS.ofS "a-- \n>b") := by decide
+example : parseComment none (BS.ofS "<!--a-- \n>b-->x") = .ok (.cm (BS.ofS "a")) 10 none := by decide
+/-- the old partial theorem's two cases are instances -/
+example : CommentBodyOK (BS.ofS "a--b-") ∧ CommentBodyOK (BS.ofS " a>b ") := by decide
+
+/-- **processing instructions round-trip, exactly.** `parse_pi` on `<?body>rest` calls `handle_pi(body)` and returns the
+    index just after the writer's `>` when the body has no `>` … -/
+theorem pi_roundtrip (cd : Option PStr) (body rest : PStr) (hb : NoGt body) :
+    parsePi cd (writePi body ++ rest) = .ok (.pi body) (writePi body).length cd :=
+  parsePi_write_exact cd body rest hb
+
+/-- … and otherwise `handle_pi` gets the proper prefix before the body's first `>` and the parser continues after it. -/
+theorem pi_ends_at_first_gt (cd : Option PStr) (body rest : PStr) (hb : ¬ NoGt body) :
+    ∃ a b, body = a ++ 62 :: b ∧ NoGt a ∧ parsePi cd (writePi body ++ rest) = .ok (.pi a) (writePi a).length cd :=
+  parsePi_write_first_gt cd body rest hb
+
+example : NoGt (BS.ofS "xml version='1.0'?") := by decide
+example : parsePi none (BS.ofS "<?xml version='1.0'?>x") = .ok (.pi (BS.ofS "xml version='1.0'?")) 21 none := by decide
+example : ¬ NoGt (BS.ofS "a>b") := by decide
+example : parsePi none (BS.ofS "<?a>b>x") = .ok (.pi (BS.ofS "a")) 4 none := by decide
+
+/-- **`<!DOCTYPE …>` round-trips, exactly.** For every spelling `kw` of the keyword (`str.lower` gives `doctype`; ASCII
+    lowering suffices, see `stdlib_facts` in the harness) `parse_html_declaration` on `<!kw body>rest` calls
+    `handle_decl(kw + body)` and returns the index just after the writer's `>` when the body has no `>` … -/
+theorem doctype_roundtrip (cd : Option PStr) (kw body rest : PStr) (hkw : asciiLower kw = kwdoctype) (hb : NoGt body) :
+    parseHtmlDeclaration cd (writeDoctype kw body ++ rest) = .ok (.dl (kw ++ body)) (writeDoctype kw body).length cd :=
+  parseHtmlDeclaration_write_exact cd kw body rest hkw hb
+
+/-- … and otherwise `handle_decl` gets the keyword and the proper prefix before the body's first `>`. -/
+theorem doctype_ends_at_first_gt (cd : Option PStr) (kw body rest : PStr) (hkw : asciiLower kw = kwdoctype)
+    (hb : ¬ NoGt body) :
+    ∃ a b, body = a ++ 62 :: b ∧ NoGt a ∧
+      parseHtmlDeclaration cd (writeDoctype kw body ++ rest) = .ok (.dl (kw ++ a)) (writeDoctype kw a).length cd :=
+  parseHtmlDeclaration_write_first_gt cd kw body rest hkw hb
+
+example : asciiLower (BS.ofS "DocType") = kwdoctype ∧ NoGt (BS.ofS " html") := by decide
+example : parseHtmlDeclaration none (BS.ofS "<!DocType html>x") = .ok (.dl (BS.ofS "DocType html")) 15 none := by decide
+example : ¬ NoGt (BS.ofS " a [<!ENTITY b \"c\">]") := by decide
+example : parseHtmlDeclaration none (BS.ofS "<!DOCTYPE a [<!ENTITY b \"c\">]>x") =
+    .ok (.dl (BS.ofS "DOCTYPE a [<!ENTITY b \"c\"")) 28 none := by decide
+
+/-- **CDATA marked sections round-trip, exactly.** `CdataBodyOK body`: in `body]]>` the pattern
+    `_markedsectionclose = ]\s*]\s*>` (whitespace allowed between the brackets!) matches at no offset inside the body.
+    Under it `parse_marked_section` on `<![CDATA[body]]>rest` calls `unknown_decl("CDATA[" + body)` and returns the index
+    just after the writer's `>`. -/
+theorem cdata_roundtrip (cd : Option PStr) (body rest : PStr) (hb : CdataBodyOK body) :
+    parseMarkedSection cd (writeCdata body ++ rest) = .ok (.ud (cdataKw ++ body)) (writeCdata body).length cd :=
+  parseMarkedSection_write_exact cd body rest hb
+
+/-- … and otherwise `unknown_decl` gets `"CDATA[" + body[:p]` for the FIRST offset `p` of the body at which
+    `]\s*]\s*>` matches `body]]>`, and the parser continues after that match. -/
+theorem cdata_ends_at_first_close (cd : Option PStr) (body rest : PStr) (hb : ¬ CdataBodyOK body) :
+    ∃ p l, p < body.length ∧ mMarkedClose (body.drop p ++ [93, 93, 62]) = some l ∧
+      (∀ k, k < p → mMarkedClose (body.drop k ++ [93, 93, 62]) = none) ∧
+      parseMarkedSection cd (writeCdata body ++ rest) = .ok (.ud (cdataKw ++ body.take p)) (9 + p + l) cd :=
+  parseMarkedSection_write_first_close cd body rest hb
+
+example : CdataBodyOK (BS.ofS "a>b]]c] ]") := by decide
+example : parseMarkedSection none (BS.ofS "<![CDATA[a>b]]c] ]]]>x") = .ok (.ud (BS.ofS "CDATA[a>b]]c] ]")) 21 none := by decide
+example : ¬ CdataBodyOK (BS.ofS "a] \n] >b") := by decide
+example : parseMarkedSection none (BS.ofS "<![CDATA[a] \n] >b]]>x") = .ok (.ud (BS.ofS "CDATA[a")) 16 none := by decide
+
+/-- **character data round-trips, exactly (the `interesting` scan, `[&<]`).** One turn of the loop outside CDATA mode on
+    `text ++ rest` — `text` non-empty without `<`/`&`, `rest` empty or beginning with `<`/`&` — hands out exactly `text` in
+    one `handle_data` call, stamped with the position before it, and then acts on `rest` at the position after it. -/
+theorem chardata_roundtrip (P : Params) (end_ : Bool) (pos : Nat × Nat) (text rest : PStr) (ht : TextOK text)
+    (hne : text ≠ []) (hr : ∀ c, rest.head? = some c → isPlain c = false) :
+    step P end_ ⟨text ++ rest, pos, none⟩ =
+      if rest.isEmpty then ([⟨.data text, text, pos⟩], ⟨[], updatepos pos text, none⟩, some .ok)
+      else applyAct [⟨.data text, text, pos⟩] rest (updatepos pos text) none (chooseAct P end_ none rest) :=
+  step_text P end_ pos text rest ht hne hr
+
+/-- … and a text that does contain `<` or `&` is cut there: the turn's data callback carries only the proper prefix
+    before the first `<`/`&` (whatever comes after). -/
+theorem chardata_ends_at_first_special (P : Params) (end_ : Bool) (pos : Nat × Nat) (a b rest : PStr) (c : Nat)
+    (ha : TextOK a) (hne : a ≠ []) (hc : isPlain c = false) :
+    (step P end_ ⟨(a ++ c :: b) ++ rest, pos, none⟩).1.head? = some ⟨.data a, a, pos⟩ := by
+  have h := step_text P end_ pos a (c :: (b ++ rest)) ha hne (by intro x hx; simp at hx; subst hx; exact hc)
+  have e : (a ++ c :: b) ++ rest = a ++ c :: (b ++ rest) := by simp
+  rw [e, h]
+  simp only [List.isEmpty_cons, Bool.false_eq_true, if_false]
+  exact applyAct_head _ _ _ _ _
+
+/-- a whole document without `<`/`&` is one data callback at line 1, column 0, and nothing is left. (At this level there is
+    no converse: `close()` flushes an unterminated construct such as a lone `<` as one data callback as well.) -/
+theorem chardata_whole_text (P : Params) (text : PStr) (ht : TextOK text) (hne : text ≠ []) :
+    (run P text).evs = [⟨.data text, text, (1, 0)⟩] ∧ (run P text).st = ⟨[], updatepos (1, 0) text, none⟩ ∧
+      (run P text).flag = .ok :=
+  run_text P text ht hne
+
+example : TextOK (BS.ofS "a>b;\n") ∧ BS.ofS "a>b;\n" ≠ [] := by decide
+example : ¬ TextOK (BS.ofS "a& b") := by decide
+example : isPlain 38 = false ∧ isPlain 60 = false ∧ TextOK (BS.ofS "a") := by decide
+example : (step P0 false ⟨BS.ofS "a& b<i>", (1, 0), none⟩).1.head? = some ⟨.data (BS.ofS "a"), BS.ofS "a", (1, 0)⟩ := by decide
+example : (run P0 (BS.ofS "a& b")).evs.map (·.tok) = [.data (BS.ofS "a"), .data (BS.ofS "&"), .data (BS.ofS " b")] := by decide
+example : (run P0 (BS.ofS "<")).evs.map (·.tok) = [.data (BS.ofS "<")] := by decide
 
 /-- **start tags round-trip.** For the writer `writeTag name attrs slash` = `<name k="w" j …>` or `<name k="w" j …/>`
     (names and attribute names over `[a-z][-.:_a-z0-9]*`, written values `w` without `"`, an attribute without value as
